@@ -18,13 +18,13 @@ import (
 )
 
 type a8Model struct {
-	c        *Ctx
-	tainted  map[ssa.Value]bool
-	fieldT   map[*types.Var]bool
-	retT     map[*ssa.Function]map[int]bool
-	callers  map[*ssa.Function][]ssa.CallInstruction
-	memo     map[string]int // 0 unknown, 1 true, 2 false, 3 busy
-	srcDesc  map[ssa.Value]string
+	c       *Ctx
+	tainted map[ssa.Value]bool
+	fieldT  map[*types.Var]bool
+	retT    map[*ssa.Function]map[int]bool
+	callers map[*ssa.Function][]ssa.CallInstruction
+	memo    map[string]int // 0 unknown, 1 true, 2 false, 3 busy
+	srcDesc map[ssa.Value]string
 }
 
 func isNumeric(t types.Type) bool {
